@@ -167,6 +167,7 @@ def run(ctx: Ctx):
             if bad:
                 ctx.fail(cons + "#errors", f.loc(), f"{f.qualname} can raise {sorted(bad)}")
 
+    _string_identity(ctx, model, mod)
     _header_layout(ctx, model, mod, avp)
     _padding(ctx, model, mod, pk, avp)
     _time(ctx, model, mod)
@@ -179,6 +180,58 @@ def run(ctx: Ctx):
     # .dictionary and are the documented registry)
     codec_funcs = [f for f in model.all_funcs() if f.module is mod]
     no_hidden_state(ctx, "C01-R8", codec_funcs, {"AVP_DICTIONARY", "AVP_VENDOR_DICTIONARY"})
+
+
+def _string_identity(ctx: Ctx, model, mod):
+    """OctetString / UTF8String: the octets are the value itself (resp. its UTF-8 encoding) - no
+    normalisation, stripping, case folding or re-coding between the value and the payload, on
+    either side.  A transformation makes `set v; read back` (and decode; re-encode) differ for the
+    values it is not the identity on (a decomposed unicode string, trailing blanks, ...)."""
+    ctx.cur("C01-R2")
+    for cn, enc, dec in (("AvpOctetString", None, None), ("AvpUtf8String", "encode", "decode")):
+        ci = mod.classes.get(cn)
+        g_ = ci.methods.get("value") if ci else None
+        s_ = ci.setters.get("value") if ci else None
+        cons = f"{cn}.value:octets-are-the-value"
+        ctx.inst(cons)
+        if g_ is None or s_ is None:
+            ctx.error(f"{cn} value getter/setter not found", rule="C01-R2")
+            continue
+        param = [a.arg for a in s_.node.args.args][1]
+
+        def shape(fn, e, base: str, meth):
+            """None if *e* (locals substituted) is `base` resp. `base.meth(<codec>)`, else its text."""
+            try:
+                t = ast.parse(A.resolve_local_chain(fn.node, e), mode="eval").body
+            except SyntaxError:
+                return ast.unparse(e)
+            if meth is None:
+                return None if A.dotted(t) == base else ast.unparse(t)
+            ok = (isinstance(t, ast.Call) and isinstance(t.func, ast.Attribute) and t.func.attr == meth
+                  and A.dotted(t.func.value) == base and len(t.args) + len(t.keywords) <= 1)
+            return None if ok else ast.unparse(t)
+        stores = [n for n in A.walk_no_nested(s_.node) if isinstance(n, (ast.Assign, ast.AnnAssign))
+                  and any(A.dotted(t) == "self.payload" for t in A.store_targets(n))]
+        if not stores:
+            ctx.error(f"{cn} setter does not store self.payload", rule="C01-R2")
+        for st in stores:
+            bad = shape(s_, st.value, param, enc)
+            if bad is not None:
+                ctx.fail(cons, s_.loc(st), f"{cn} setter stores `{bad[:80]}` as the payload, not "
+                         f"`{param}{'.' + enc + '(utf8)' if enc else ''}`: the value is transformed on its "
+                         f"way to the wire, so reading it back (or decoding the wire bytes) does not return "
+                         f"the value that was set for every string",
+                         expected=f"{param}" + (f".{enc}('utf8')" if enc else ""), observed=bad[:120])
+        rets = [n for n in A.walk_no_nested(g_.node) if isinstance(n, ast.Return) and n.value is not None]
+        if not rets:
+            ctx.error(f"{cn} getter returns nothing", rule="C01-R2")
+        for r in rets:
+            bad = shape(g_, r.value, "self.payload", dec)
+            if bad is not None:
+                ctx.fail(cons + "#getter", g_.loc(r), f"{cn} getter returns `{bad[:80]}`, not "
+                         f"`self.payload{'.' + dec + '(utf8)' if dec else ''}`: decoded values differ from "
+                         f"the octets on the wire, re-encoding them does not reproduce the input",
+                         expected="self.payload" + (f".{dec}('utf8')" if dec else ""), observed=bad[:120])
 
 
 def _in_try_raising(f, node, E, caught: str, raised: str) -> bool:
